@@ -14,7 +14,10 @@
        danger character lists: months 3g 3p 4g 4p, days 3 4, am/pm, era>   (`NamesOK` conditions of the text-step theorems)
     cu.check <culture> → <offsetTextsCustom> <dtTextsNoL> <monthHeadsEmpty>   (culture hypotheses of the theorems)
     pat.calids → hex of the U+001F-joined calendar ids
-       type: time | date | offset | datetime | datetime:<y>,<m>,<d>,<nod> (template value)
+       type: time | date | offset | datetime | datetime:<y>,<m>,<d>,<nod> (template value) | dateC:<cal>,<y>,<m>,<d> |
+             datetimeC:<cal>,<y>,<m>,<d>,<nod> (template value in the calendar with that ordinal); a date / date-time
+             VALUE of another calendar carries the ordinal as an extra last field (`y m d cal`, `y m d nod cal`)
+    pat.calords → hex of the U+001F-joined calendar ids in ordinal order
        shape: S<used>/<number of steps>  |  Z(<shape>)  |  C(<shape>,<shape>,…)   (an embedded pattern counts as one step)
     culture: `inv` or `c:` + hex of the U+001F-joined fields of `Culture` (lists comma-free: each list entry is
        its own field; 4+4+14*4+8*2+11 … see `decodeCulture`)
@@ -40,13 +43,14 @@ def splitOnChar (sep : Char) : Text → Text → List Text → List Text
 
 /-- field order: timeSep dateSep am pm | 14 longMonths | 14 shortMonths | 14 longMonthsGen | 14 shortMonthsGen |
     8 longDays | 8 shortDays | shortDate longDate monthDay shortTime longTime | 6 offset pattern texts |
-    fullDateTime | primary BCE, CE era names | all BCE, CE era names (each list U+001E-joined)  (92 fields) -/
+    fullDateTime | primary BCE, CE era names | all BCE, CE era names (each list U+001E-joined) | primary names of the
+    eras anno martyrum, anno mundi, anno persico, anno hegirae, Bahá'í | all names of those five  (102 fields) -/
 def decodeCulture (s : String) : Option Culture :=
   if s = "inv" then some invariantCulture
   else if s.startsWith "c:" then do
     let t ← decodeText' (String.ofList (s.toList.drop 2))
     let fs := splitOnChar (Char.ofNat 31) t [] []
-    if fs.length ≠ 92 then none else
+    if fs.length ≠ 102 then none else
     let g (i : Nat) : Text := fs.getD i []
     let sl (a n : Nat) : List Text := (fs.drop a).take n
     let names (i : Nat) : List Text := if g i = [] then [] else splitOnChar (Char.ofNat 30) (g i) [] []
@@ -55,7 +59,8 @@ def decodeCulture (s : String) : Option Culture :=
            longDays := sl 60 8, shortDays := sl 68 8,
            shortDate := g 76, longDate := g 77, monthDay := g 78, shortTime := g 79, longTime := g 80,
            offLong := g 81, offMedium := g 82, offShort := g 83, offLongNP := g 84, offMediumNP := g 85, offShortNP := g 86,
-           fullDateTime := g 87, eraPrimaryBCE := g 88, eraPrimaryCE := g 89, eraNamesBCE := names 90, eraNamesCE := names 91 }
+           fullDateTime := g 87, eraPrimaryBCE := g 88, eraPrimaryCE := g 89, eraNamesBCE := names 90, eraNamesCE := names 91,
+           eraPrimaryX := [g 92, g 93, g 94, g 95, g 96], eraNamesX := [names 97, names 98, names 99, names 100, names 101] }
   else none
 
 /-- `time` | `date` | `offset` | `datetime` (default template) | `datetime:<y>,<m>,<d>,<nod>` | `annual` |
@@ -74,12 +79,22 @@ def decodeType (s : String) : Option PType :=
     | some [m, d] => some (.annual m d)
     | _ => none
   else if s = "duration" then some .duration
+  else if s.startsWith "dateC:" then
+    match ((String.ofList (s.toList.drop 6)).splitOn ",").mapM String.toInt? with
+    | some [cal, y, m, d] => if cal < 0 then none else some (.dateC ⟨cal.toNat, y, m, d, 0⟩)
+    | _ => none
+  else if s.startsWith "datetimeC:" then
+    match ((String.ofList (s.toList.drop 10)).splitOn ",").mapM String.toInt? with
+    | some [cal, y, m, d, nod] => if cal < 0 then none else some (.datetimeC ⟨cal.toNat, y, m, d, nod⟩)
+    | _ => none
   else none
 
 /-- the type a created pattern object parses with (LocalDateTime standard patterns keep the default template) -/
 def effType (tok : String) (ty : PType) (text : Text) : PType :=
   match ty with
   | .datetime tm => if tok = "instant" then ty else .datetime (effTmpl tm text)
+  | .dateC tc => .dateC (effTmplDateC tc text)
+  | .datetimeC tc => .datetimeC (effTmplC tc text)
   | t => t
 
 /-- pattern creation for a type token (`instant` = the Instant adapter over a LocalDateTime pattern) -/
@@ -91,6 +106,7 @@ def stepIsText : Step → Bool
   | .monthText _ => true
   | .dayText _ => true
   | .era => true
+  | .eraC _ => true
   | _ => false
 
 /-- number of format/parse action pairs of the segments (an embedded pattern is one action) -/
@@ -135,6 +151,7 @@ def stepAscii (cu : Culture) : Step → Bool
   | .monthText count => (monthTable cu count true).all asciiOnly && (monthTable cu count false).all asciiOnly
   | .dayText count => (dayTable cu count).all asciiOnly
   | .era => (cu.eraNamesBCE ++ cu.eraNamesCE).all asciiOnly
+  | .eraC cal => (eraNamesOf cu (eraIdOfCal cal)).all asciiOnly
   | _ => true
 
 def segAscii : Seg → Bool
@@ -233,6 +250,7 @@ def handlePat (toks : List String) : Option String :=
       some (String.ofList (bits.map (fun b => if b then '1' else '0')) ++ " " ++
         encodeText' (List.intercalate [Char.ofNat 31] dangers))
   | ["pat.calids"] => some (encodeText' (List.intercalate [Char.ofNat 31] calendarIds))
+  | ["pat.calords"] => some (encodeText' (List.intercalate [Char.ofNat 31] calOrdIds))
   | _ => none
 
 end Pyoda.Text
